@@ -164,6 +164,7 @@ package client
 //@   requires [no-reject-yet] !cbfail
 //@   ensures [pubrel-always-comp] err == nil ==> nsent[7] == old(nsent[7]) + 1 && lastid[7] == id
 //@   ensures [delivered-once] err == nil && old(saved[0][id]) == 3 && c.Callback != nil && !c.earlyCallback ==> ncallback == old(ncallback) + 1 && !cbfail
+//@   ensures [no-redelivery] err == nil && old(saved[0][id]) != 3 ==> ncallback == old(ncallback)
 //@   ensures [released] err == nil ==> saved[0][id] == 0
 //@   ensures [inv] err == nil ==> client_inv(c) && (old(incoming_ok()) ==> incoming_ok()) && (old(outgoing_ok()) ==> outgoing_ok()) && (cbfail <==> old(cbfail)) && c.connectFuture == old(c.connectFuture)
 //@   modifies everything
